@@ -43,8 +43,10 @@ class DeleteContext():
         except LenaKeyError:
             return value
 
-        try:
-            del subcont[key]
-        except KeyError:
-            pass
+        if isinstance(subcont, dict):
+            # a key can't be present in a value that is not a dictionary
+            try:
+                del subcont[key]
+            except KeyError:
+                pass
         return value
